@@ -256,7 +256,10 @@ class TypeRender:
         """sprinkle non-educe attributes around a rendered educe attribute string"""
         if not self.foreign or not text:
             return text
-        how = pick(['', '', 'allow-before', 'doc-before', 'allow-after', 'both'], 'foreign', self.idx, key)
+        how = pick(['', '', 'allow-before', 'doc-before', 'allow-after', 'both', 'between'], 'foreign', self.idx, key)
+        if how == 'between':
+            # a foreign attribute *between* two stacked educe attributes (or before the only one)
+            return text.replace(')] #[educe(', ')] #[doc = "m"] #[educe(', 1) if ')] #[educe(' in text else '#[doc = "m"] ' + text
         if how == 'allow-before':
             return '#[allow(dead_code)] ' + text
         if how == 'doc-before':
